@@ -46,7 +46,7 @@ impl Distribution<PushGene> for Tape {
     }
 }
 
-const FLAVOURS: [&str; 16] = [
+pub const FLAVOURS: [&str; 16] = [
     "Vec.into_distribution (OneOfCloning)",
     "&Vec.into_distribution -> &T (Choose)",
     "&Vec.into_distribution -> T (ChooseCloning)",
@@ -66,7 +66,7 @@ const FLAVOURS: [&str; 16] = [
 ];
 
 #[derive(Clone, Debug, PartialEq, Eq, PartialOrd, Ord)]
-enum Pick {
+pub enum Pick {
     /// index of the chosen member; `by_ref` flavours also assert the reference points into the source
     Member(usize),
     NotAMember,
@@ -138,7 +138,7 @@ fn with_array<const N: usize>(flavour: usize, rng: &mut ChoiceRng) -> Pick {
     }
 }
 
-fn pick_once(flavour: usize, n: usize, env: &mut Env, alpha: Alphabet) -> Pick {
+pub fn pick_once(flavour: usize, n: usize, env: &mut Env, alpha: Alphabet) -> Pick {
     let mut rng = ChoiceRng::new(env, alpha);
     let src: Vec<u32> = (0..n as u32).map(|i| 100 + i).collect();
     let r = mcx::guarded(|| match flavour {
